@@ -30,7 +30,7 @@ const runeEOF = -1
 type lexEdge struct {
 	from, to *ssa.Function // to == nil: machine stops
 	ret      *ssa.Return
-	runes    []int64  // representatives reaching this return (each stands for an interval)
+	runes    []int64 // representatives reaching this return (each stands for an interval)
 	ivals    [][2]int64
 	events   []string // "next", "accept:<set>", "emit"
 	unknown  bool
@@ -367,6 +367,36 @@ func lexInterpret(c *Ctx, f, nextFn, peekFn, acceptFn *ssa.Function, states []*s
 			}
 		})
 	}
+	// constants in predicate helpers the rune is passed to (isLetter(r) and the like)
+	if cur != nil {
+		allInstrs(f, func(i ssa.Instruction) {
+			call, ok := i.(*ssa.Call)
+			if !ok {
+				return
+			}
+			g := calleeFunc(&call.Call)
+			if g == nil || !c.w.inModule(g) || g.Blocks == nil {
+				return
+			}
+			for k, a := range call.Call.Args {
+				if peelConv(a) == cur && k < len(g.Params) {
+					par := ssa.Value(g.Params[k])
+					allInstrs(g, func(j ssa.Instruction) {
+						if b, ok := j.(*ssa.BinOp); ok {
+							for _, pair := range [][2]ssa.Value{{b.X, b.Y}, {b.Y, b.X}} {
+								if peelConv(pair[0]) == par {
+									if kc, ok := pair[1].(*ssa.Const); ok && kc.Value != nil && kc.Value.Kind() == constant.Int {
+										v, _ := constant.Int64Val(kc.Value)
+										pts[v] = true
+									}
+								}
+							}
+						}
+					})
+				}
+			}
+		})
+	}
 	var sorted []int64
 	for p := range pts {
 		sorted = append(sorted, p)
@@ -404,6 +434,15 @@ func lexInterpret(c *Ctx, f, nextFn, peekFn, acceptFn *ssa.Function, states []*s
 				if x.Op == token.NOT {
 					if r, ok := evalB(x.X, bools); ok {
 						return !r, true
+					}
+				}
+			case *ssa.Call:
+				// a module predicate on the current rune: interpret it for this representative
+				if g := calleeFunc(&x.Call); g != nil && cur != nil && c.w.inModule(g) && g.Blocks != nil {
+					for k, a := range x.Call.Args {
+						if peelConv(a) == cur && k < len(g.Params) {
+							return evalRunePred(g, g.Params[k], rep)
+						}
 					}
 				}
 			case *ssa.BinOp:
@@ -571,4 +610,100 @@ func addLexEdge(byRet map[*ssa.Return]*lexEdge, order *[]*ssa.Return, f *ssa.Fun
 	}
 	e.runes = append(e.runes, rep)
 	e.ivals = append(e.ivals, iv)
+}
+
+// evalRunePred interprets a pure predicate g for the concrete value rep of its parameter par: only comparisons of par
+// with constants, boolean connectives (as control flow and phis) and constant returns are understood.
+func evalRunePred(g *ssa.Function, par ssa.Value, rep int64) (bool, bool) {
+	bools := map[ssa.Value]bool{}
+	var ev func(v ssa.Value) (bool, bool)
+	ev = func(v ssa.Value) (bool, bool) {
+		if r, ok := bools[v]; ok {
+			return r, true
+		}
+		switch x := v.(type) {
+		case *ssa.Const:
+			return constBool(x)
+		case *ssa.UnOp:
+			if x.Op == token.NOT {
+				if r, ok := ev(x.X); ok {
+					return !r, true
+				}
+			}
+		case *ssa.BinOp:
+			var k int64
+			var isK bool
+			op := x.Op
+			if peelConv(x.X) == par {
+				k, isK = constInt(x.Y)
+			} else if peelConv(x.Y) == par {
+				k, isK = constInt(x.X)
+				op = swapOp(op)
+			}
+			if !isK {
+				return false, false
+			}
+			switch op {
+			case token.EQL:
+				return rep == k, true
+			case token.NEQ:
+				return rep != k, true
+			case token.LSS:
+				return rep < k, true
+			case token.LEQ:
+				return rep <= k, true
+			case token.GTR:
+				return rep > k, true
+			case token.GEQ:
+				return rep >= k, true
+			}
+		}
+		return false, false
+	}
+	b := g.Blocks[0]
+	var prev *ssa.BasicBlock
+	for steps := 0; steps < 200; steps++ {
+		var next *ssa.BasicBlock
+		for _, ins := range b.Instrs {
+			switch x := ins.(type) {
+			case *ssa.Phi:
+				if prev != nil {
+					for k, p := range b.Preds {
+						if p == prev {
+							if r, ok := ev(x.Edges[k]); ok {
+								bools[x] = r
+							}
+						}
+					}
+				}
+			case *ssa.If:
+				r, ok := ev(x.Cond)
+				if !ok {
+					return false, false
+				}
+				if r {
+					next = b.Succs[0]
+				} else {
+					next = b.Succs[1]
+				}
+			case *ssa.Jump:
+				next = b.Succs[0]
+			case *ssa.Return:
+				if len(x.Results) != 1 {
+					return false, false
+				}
+				return ev(x.Results[0])
+			case *ssa.Call, *ssa.Store, *ssa.Panic, *ssa.Send, *ssa.MapUpdate:
+				return false, false // not a pure predicate
+			}
+			if next != nil {
+				break
+			}
+		}
+		if next == nil {
+			return false, false
+		}
+		prev, b = b, next
+	}
+	return false, false
 }
